@@ -543,7 +543,8 @@ Definition svcb_value (key : N) (len : N) : M (list byte) :=
                         if utf8_ok (S (length s)) s then ret (s :: acc) else fail EOther) [] ;;
     match ss with [] => fail EOther | _ => ret (concat (map dbytes (rev ss))) end
   else if key =? 2 then (if 0 <? len then fail ERdLen else ret [])
-  else if key =? 3 then p <- read_u16 ;; ret (d16 p)
+  else if key =? 3 then                      (* port: exactly two octets *)
+    (if negb (len =? 2) then fail ERdLen else p <- read_u16 ;; ret (d16 p))
   else if key =? 4 then
     ips <- while_nonempty (fun acc => a <- read_octets 4 [] ;; ret (a :: acc)) [] ;;
     ret (concat (rev ips))
